@@ -1,22 +1,37 @@
 """C07 - hash_hypergraph is a canonical fingerprint.
 
-Correspondence of lean/Hgxv/Model/C07.lean (tables, table-level operations, expose?/preimage?/canon/content) with
+Correspondence of lean/Hgxv/Model/C07.lean (tables, table-level operations incl. the batched calls, the constructor
+with lists and the attribute-level setters, expose?/preimage?/canon/content) with
 hypergraphx.readwrite.hashing.hash_hypergraph and the four container classes, plus the property's own oracle on the
 implementation: equal observed content <=> equal hash, hashing is pure."""
+import contextlib
 import copy
 import hashlib
+import io
 import json
 import signal
+import warnings
+import zlib
 
 import hgxv
 
 RULE = ("per case: a container class (H/D/T/M), int or string node labels, weighted or not, a target content (2-7 nodes with "
-        "JSON metadata, 0-6 hyperedges with int/float weights k/4 and metadata, hypergraph metadata) and 4 construction "
-        "histories ending in it: one plain, one through the batched calls (add_nodes, add_edges, remove_edges, remove_nodes), two with permuted insertion and node-listing order, split weights, "
-        "set-then-overwrite metadata, hyperedges built by shrinking (remove_node keep_edges=True), insert-then-remove detours "
-        "of extra hyperedges/nodes, remove-and-rebuild of real nodes, clear-and-rebuild, calls that are rejected; plus 4-6 single-element edits of "
-        "the content (node, hyperedge, weight value, 1 vs 1.0, time, layer, direction, weightedness, one node / hyperedge "
-        "/ hypergraph metadata atom). Distinct = kind + target content + histories; non-trivial = some history took a "
+        "JSON metadata, 0-6 hyperedges with int/float weights k/4 and metadata, hypergraph metadata; 30% sparse: mostly empty "
+        "metadata, isolated nodes) and 4 construction histories ending in it: one plain (single calls), one through the "
+        "batched calls (add_nodes / add_edges with or WITHOUT metadata arguments, split and empty batches, remove_edges, "
+        "remove_nodes) or the constructor with lists (node_metadata, edge_list + time_list / edge_layer or embedded, weights, "
+        "edge_metadata or none), the metadata that was not passed completed by the attribute-level setters (set_attr_to_*, "
+        "remove_attr_from_*) or the whole-dictionary setters; two with permuted insertion and node-listing order, split weights, "
+        "set-then-overwrite metadata, metadata built field by field (overwritten and removed attributes), hyperedges built by "
+        "shrinking (remove_node keep_edges=True), insert-then-remove detours of extra hyperedges/nodes, remove-and-rebuild of "
+        "real nodes, clear-and-rebuild, calls that are rejected, continuation on obj.copy() (the original must not change); "
+        "in 65% of the cases the SAME 1-5 attribute-level edits (nodes, hyperedges, hypergraph; some rejected) are appended "
+        "to all four histories; plus 4-6 single-element edits of the resulting content (node, hyperedge, weight value, 1 vs 1.0, "
+        "time, layer, direction, weightedness (constructor flag; flag alone with equal hypergraph metadata, also switched on "
+        "by add_edges(weights=[1..]) on an unweighted object), one node / hyperedge / hypergraph metadata atom incl. ints "
+        "beyond 2**53, the order of a list inside a metadata value). Every history must show "
+        "(getters) the content its calls describe, all four the same content and the same hash. Fixed alias probes (8: class x "
+        "weighted) run first. Distinct = kind + target content + histories; non-trivial = some history took a "
         "removal detour and the target has at least one hyperedge and one non-empty metadata")
 ASSUMPTIONS = [
     "node labels are all ints or all strings (mutually comparable, JSON-representable); metadata are JSON values with "
@@ -67,6 +82,8 @@ def gen_value(rng, depth=0):
     if depth >= 2 or r < 0.55:
         c = rng.randrange(6)
         if c == 0:
+            if rng.random() < 0.08:
+                return rng.choice([2 ** 53 + 1, 2 ** 62 + 1, -(2 ** 63), 10 ** 20])   # not exact as floats
             return rng.randint(-3, 9)
         if c == 1:
             return rng.randint(-8, 20) / 4
@@ -287,28 +304,97 @@ def untree_key(kind, t, unrank, unlrank):
 
 # ------------------------------------------------------------------------------------------ implementation side
 
+def omit(op):
+    """an optional argument whose value is None is passed as None or left out (both are the same call by the
+    signature; a mutable default argument is only visible when it is left out); fixed per operation so that a replay
+    makes the same calls"""
+    return zlib.crc32(json.dumps(op, sort_keys=True, default=repr).encode()) & 1 == 0
+
+
+def opt_kw(op, **kw):
+    if omit(op):
+        return {k: v for k, v in kw.items() if v is not None}
+    return kw
+
+
 def make(kind, weighted, user_hm):
     from hypergraphx import Hypergraph, DirectedHypergraph, TemporalHypergraph, MultiplexHypergraph
     cls = {"H": Hypergraph, "D": DirectedHypergraph, "T": TemporalHypergraph, "M": MultiplexHypergraph}[kind]
-    return cls(weighted=weighted, hypergraph_metadata=copy.deepcopy(user_hm))
+    return cls(**opt_kw(["new", kind, weighted], weighted=weighted, hypergraph_metadata=copy.deepcopy(user_hm)))
+
+
+def py_key(kind, k):
+    """op key -> the tuple that the public API takes as `edge` (+ the second argument for Temporal/Multiplex)"""
+    if kind == "H":
+        return tuple(k)
+    if kind == "D":
+        return (tuple(k[0]), tuple(k[1]))
+    if kind == "T":
+        return tuple(k[1])
+    return tuple(k[0])
+
+
+def make_ctor(kind, op):
+    """constructor with lists: op = ["ctor", weighted, hypergraph_metadata, [[node, md]..]|None, keys|None,
+    weights|None, edge_metadata|None, embedded]; every argument is a fresh copy (no object is passed twice)"""
+    from hypergraphx import Hypergraph, DirectedHypergraph, TemporalHypergraph, MultiplexHypergraph
+    cls = {"H": Hypergraph, "D": DirectedHypergraph, "T": TemporalHypergraph, "M": MultiplexHypergraph}[kind]
+    _, weighted, hm, nitems, ks, ws, mds = op[:7]
+    embedded = bool(op[7]) if len(op) > 7 else False
+    kw = opt_kw(op, weighted=weighted, hypergraph_metadata=copy.deepcopy(hm))
+    if nitems is not None:
+        kw["node_metadata"] = {n: copy.deepcopy(md) for n, md in nitems}
+    if ks is not None:
+        if kind in "HD":
+            kw["edge_list"] = [py_key(kind, k) for k in ks]
+        elif kind == "T":
+            if embedded:
+                kw["edge_list"] = [(k[0], tuple(k[1])) for k in ks]
+            else:
+                kw["edge_list"] = [tuple(k[1]) for k in ks]
+                kw["time_list"] = [k[0] for k in ks]
+        else:
+            if embedded:
+                kw["edge_list"] = [(tuple(k[0]), k[1]) for k in ks]
+            else:
+                kw["edge_list"] = [tuple(k[0]) for k in ks]
+                kw["edge_layer"] = [k[1] for k in ks]
+        if ws is not None:
+            kw["weights"] = list(ws)
+        if mds is not None:
+            kw["edge_metadata"] = [copy.deepcopy(m) for m in mds]
+    return cls(**kw)
 
 
 def apply_op(kind, h, op):
     """run one operation on the real object: 'ok' | 'rej' (any exception)"""
+    if op[0] == "addedges" and op[2] is not None:
+        # add_edges(weights=...) on an unweighted hypergraph prints / warns that it becomes weighted
+        with contextlib.redirect_stdout(io.StringIO()), warnings.catch_warnings():
+            warnings.simplefilter("ignore")
+            return apply_op_(kind, h, op)
+    return apply_op_(kind, h, op)
+
+
+def apply_op_(kind, h, op):
     name = op[0]
     try:
         if name == "addnode":
-            h.add_node(op[1], copy.deepcopy(op[2]))
-        elif name == "addedge":
-            k, w, md = op[1], op[2], copy.deepcopy(op[3])
-            if kind == "H":
-                h.add_edge(tuple(k), weight=w, metadata=md)
-            elif kind == "D":
-                h.add_edge((tuple(k[0]), tuple(k[1])), weight=w, metadata=md)
-            elif kind == "T":
-                h.add_edge(tuple(k[1]), k[0], weight=w, metadata=md)
+            if op[2] is None and omit(op):
+                h.add_node(op[1])
             else:
-                h.add_edge(tuple(k[0]), k[1], weight=w, metadata=md)
+                h.add_node(op[1], copy.deepcopy(op[2]))
+        elif name == "addedge":
+            k = op[1]
+            kw = opt_kw(op, weight=op[2], metadata=copy.deepcopy(op[3]))
+            if kind == "H":
+                h.add_edge(tuple(k), **kw)
+            elif kind == "D":
+                h.add_edge((tuple(k[0]), tuple(k[1])), **kw)
+            elif kind == "T":
+                h.add_edge(tuple(k[1]), k[0], **kw)
+            else:
+                h.add_edge(tuple(k[0]), k[1], **kw)
         elif name == "rmedge":
             k = op[1]
             if kind == "H":
@@ -347,24 +433,51 @@ def apply_op(kind, h, op):
                 h.set_weight(tuple(k[0]), k[1], w)
         elif name == "clear":
             h.clear()
+        elif name == "setnattr":
+            h.set_attr_to_node_metadata(op[1], op[2], copy.deepcopy(op[3]))
+        elif name == "delnattr":
+            h.remove_attr_from_node_metadata(op[1], op[2])
+        elif name == "seteattr":
+            k, f, v = op[1], op[2], copy.deepcopy(op[3])
+            if kind in "HD":
+                h.set_attr_to_edge_metadata(py_key(kind, k), f, v)
+            elif kind == "T":
+                h.set_attr_to_edge_metadata(tuple(k[1]), k[0], f, v)
+            else:
+                h.set_attr_to_edge_metadata(tuple(k[0]), k[1], f, v)
+        elif name == "deleattr":
+            k, f = op[1], op[2]
+            if kind in "HD":
+                h.remove_attr_from_edge_metadata(py_key(kind, k), f)
+            elif kind == "T":
+                h.remove_attr_from_edge_metadata(tuple(k[1]), k[0], f)
+            else:
+                h.remove_attr_from_edge_metadata(tuple(k[0]), k[1], f)
+        elif name == "sethattr":
+            h.set_attr_to_hypergraph_metadata(op[1], copy.deepcopy(op[2]))
         elif name == "addnodes":
-            ns, mds = op[1], copy.deepcopy(op[2])
+            # every metadata entry is its own fresh object: sharing can only come from the implementation
+            ns, mds = op[1], (None if op[2] is None else [copy.deepcopy(m) for m in op[2]])
             if kind == "D":
                 h.add_nodes(list(ns))
             elif mds is None:
                 h.add_nodes(list(ns))
             else:
-                h.add_nodes(list(ns), dict(zip(ns, mds)))
+                d = dict(zip(ns, mds))
+                for x, md in (op[3] if len(op) > 3 else []):
+                    d.setdefault(x, copy.deepcopy(md))       # entries for nodes that are not in the list: ignored
+                h.add_nodes(list(ns), d)
         elif name == "addedges":
-            ks, ws, mds = op[1], op[2], copy.deepcopy(op[3])
+            ks, ws, mds = op[1], op[2], (None if op[3] is None else [copy.deepcopy(m) for m in op[3]])
+            kw = opt_kw(op, weights=ws, metadata=mds)
             if kind == "H":
-                h.add_edges([tuple(k) for k in ks], weights=ws, metadata=mds)
+                h.add_edges([tuple(k) for k in ks], **kw)
             elif kind == "D":
-                h.add_edges([(tuple(k[0]), tuple(k[1])) for k in ks], weights=ws, metadata=mds)
+                h.add_edges([(tuple(k[0]), tuple(k[1])) for k in ks], **kw)
             elif kind == "T":
-                h.add_edges([tuple(k[1]) for k in ks], [k[0] for k in ks], weights=ws, metadata=mds)
+                h.add_edges([tuple(k[1]) for k in ks], [k[0] for k in ks], **kw)
             else:
-                h.add_edges([tuple(k[0]) for k in ks], [k[1] for k in ks], weights=ws, metadata=mds)
+                h.add_edges([tuple(k[0]) for k in ks], [k[1] for k in ks], **kw)
         elif name == "rmedges":
             ks = op[1]
             if kind == "H":
@@ -388,16 +501,22 @@ def apply_op(kind, h, op):
         return "rej"
 
 
+BATCHED = ("addnodes", "addedges", "rmedges", "rmnodes")
+
+
 def wire_ops(kind, slot, op, rank, lrank):
-    """a batched call is the sequence of its single calls in the model"""
+    """add_nodes / add_edges are ONE model operation (`Op.addNodes`, `Op.addEdges`); the batched removals are the
+    sequence of their single calls"""
     name = op[0]
     if name == "addnodes":
-        mds = op[2] if (op[2] is not None and kind != "D") else [None] * len(op[1])
-        return [wire_op(kind, slot, ["addnode", n, md], rank, lrank) for n, md in zip(op[1], mds)]
+        mds = op[2] if (op[2] is not None and kind != "D") else None
+        return ["addnodes %d %s %s" % (slot, ",".join(str(rank[n]) for n in op[1]) or "-",
+                                       "~" if mds is None else wire(list(mds)))]
     if name == "addedges":
-        ws = op[2] if op[2] is not None else [None] * len(op[1])
-        mds = op[3] if op[3] is not None else [None] * len(op[1])
-        return [wire_op(kind, slot, ["addedge", k, w, md], rank, lrank) for k, w, md in zip(op[1], ws, mds)]
+        return ["addedges %d %d %s %s %s" % (
+            slot, 0 if op[2] is None else 1,
+            "/".join(wire_key(kind, canon_free(kind, k), rank, lrank) for k in op[1]) or "-",
+            "~" if op[2] is None else wire(list(op[2])), "~" if op[3] is None else wire(list(op[3])))]
     if name == "rmedges":
         return [wire_op(kind, slot, ["rmedge", k], rank, lrank) for k in op[1]]
     if name == "rmnodes":
@@ -431,7 +550,28 @@ def wire_op(kind, slot, op, rank, lrank):
         return "setw %d %s %s" % (slot, wk(op[1]), wire(op[2]))
     if name == "clear":
         return "clear %d" % slot
+    if name == "setnattr":
+        return "setnattr %d %d %s %s" % (slot, rank[op[1]], op[2], wire(op[3]))
+    if name == "delnattr":
+        return "delnattr %d %d %s" % (slot, rank[op[1]], op[2])
+    if name == "seteattr":
+        return "seteattr %d %s %s %s" % (slot, wk(op[1]), op[2], wire(op[3]))
+    if name == "deleattr":
+        return "deleattr %d %s %s" % (slot, wk(op[1]), op[2])
+    if name == "sethattr":
+        return "sethattr %d %s %s" % (slot, op[1], wire(op[2]))
     raise AssertionError(name)
+
+
+def wire_ctor(kind, slot, op, rank, lrank):
+    _, weighted, hm, nitems, ks, ws, mds = op[:7]
+    nitems = nitems or []
+    return "build %d %s %d %s %s %s %d %s %s %s" % (
+        slot, kind, 1 if weighted else 0, wire(hm or {}),
+        ",".join(str(rank[n]) for n, _ in nitems) or "-", wire([md for _, md in nitems]),
+        0 if (ks is None or ws is None) else 1,
+        "/".join(wire_key(kind, canon_free(kind, k), rank, lrank) for k in (ks or [])) or "-",
+        "~" if (ks is None or ws is None) else wire(list(ws)), "~" if (ks is None or mds is None) else wire(list(mds)))
 
 
 def canon_free(kind, k):
@@ -571,11 +711,19 @@ def state_digest(h):
 
 def gen_universe(rng):
     if rng.random() < 0.3:
-        pool = [chr(97 + i) * rng.randint(1, 2) for i in range(20)] + ["E1", "N0", "Zz"]
+        pool = [chr(97 + i) * rng.randint(1, 2) for i in range(20)] + ["E1", "N0", "Zz", ""]
         pool = sorted(set(pool))
+        falsy = ""
     else:
         pool = list(range(0, 40))
-    return rng.sample(pool, 14)
+        falsy = 0
+    uni = rng.sample(pool, 14)
+    if rng.random() < 0.35:
+        # a falsy label (0, '') among the nodes of the target
+        uni = [x for x in uni if x != falsy]
+        uni.insert(rng.randint(0, 1), falsy)
+        uni = uni[:14]
+    return uni
 
 
 LAYERS = ["L0", "K", "beta", "A"]
@@ -609,24 +757,29 @@ def gen_key(kind, nodes, rng, times=(0, 1, 2, 5), layers=LAYERS):
 
 def gen_target(kind, rng):
     uni = gen_universe(rng)
-    nn = rng.randint(2, 7)
+    # sparse: most metadata empty and several isolated nodes (items that a metadata-less batch leaves with `{}`)
+    sparse = rng.random() < 0.3
+    nn = rng.randint(3, 7) if sparse else rng.randint(2, 7)
     nodes = uni[:nn]
     extra = uni[nn:]
     weighted = rng.random() < 0.5
     tgt = {"kind": kind, "weighted": weighted, "nodes": {}, "edges": {}, "extra": extra}
     for n in nodes:
-        tgt["nodes"][n] = gen_dict(rng, p_empty=0.5)
-    for _ in range(rng.randint(0, 6)):
-        k = gen_key(kind, nodes, rng)
+        tgt["nodes"][n] = gen_dict(rng, p_empty=0.85 if sparse else 0.5)
+    pool = nodes[:max(2, nn - rng.randint(1, 3))] if sparse else nodes
+    for _ in range(rng.randint(0, 4) if sparse else rng.randint(0, 6)):
+        k = gen_key(kind, pool, rng)
         if k is None or k in tgt["edges"]:
             continue
         w = gen_weight(rng, weighted, kind)
-        tgt["edges"][k] = (w, gen_dict(rng, p_empty=0.4))
+        tgt["edges"][k] = (w, gen_dict(rng, p_empty=0.8 if sparse else 0.4))
     tgt["user_hm"] = None if rng.random() < 0.3 else gen_dict(rng, p_empty=0.2)
     return tgt
 
 
 def final_hmeta(tgt):
+    if tgt.get("hm_final") is not None:
+        return copy.deepcopy(tgt["hm_final"])       # set by set_hypergraph_metadata at the end of the history
     hm = dict(copy.deepcopy(tgt["user_hm"]) or {})
     hm.update({"weighted": tgt["weighted"], "type": TAG[tgt["kind"]]})
     return hm
@@ -663,6 +816,35 @@ def interleave(units, rng):
     return out
 
 
+def attr_build(setop, delop, ident, md, rng, have=()):
+    """attribute-level calls that turn a dictionary holding the keys `have` (a prefix of md) into md: one set per
+    missing field, some fields set to something else first, sometimes an extra field that is removed again"""
+    ops = []
+    if not callable(ident):
+        fixed = ident
+        ident = lambda: fixed
+    junk = None
+    if rng.random() < 0.3:
+        free = [w for w in WORDS if w not in md]
+        if free:
+            junk = rng.choice(free)
+            ops.append([setop, ident(), junk, gen_value(rng, 1)])
+    for f, v in md.items():
+        if f in have:
+            continue
+        if rng.random() < 0.25:
+            ops.append([setop, ident(), f, gen_value(rng, 1)])
+        ops.append([setop, ident(), f, v])
+    if junk is not None:
+        ops.append([delop, ident(), junk])
+    return ops
+
+
+def prefix_dict(md, rng):
+    ks = list(md)
+    return {k: md[k] for k in ks[:rng.randint(0, max(0, len(ks) - 1))]}
+
+
 def gen_history(tgt, rng, fancy):
     """ops list ending (under the documented semantics) in the target content; flags of what was used"""
     kind, weighted = tgt["kind"], tgt["weighted"]
@@ -688,12 +870,20 @@ def gen_history(tgt, rng, fancy):
     for n, md in tgt["nodes"].items():
         in_edge = any(n in key_nodes(kind, k) for k in tgt["edges"])
         r = rng.random() if fancy else 0.0
-        if r < 0.6 or not can_set:
+        if r < 0.45:
             if md == {} and in_edge and fancy and rng.random() < 0.5:
                 units.append([])                       # created by its hyperedges
             else:
                 units.append([["addnode", n, md if (md or rng.random() < 0.5) else None]])
-        elif r < 0.8:
+        elif r < 0.7:
+            # metadata completed field by field through the attribute-level setters (the only way for Multiplex)
+            pre = prefix_dict(md, rng)
+            units.append([["addnode", n, pre if (pre or rng.random() < 0.5) else None]] +
+                         attr_build("setnattr", "delnattr", n, md, rng, have=pre))
+            used.add("attr-build")
+        elif not can_set:
+            units.append([["addnode", n, md if (md or rng.random() < 0.5) else None]])
+        elif r < 0.85:
             units.append([["addnode", n, None], ["setnm", n, md]])
             used.add("overwrite")
         else:
@@ -703,11 +893,18 @@ def gen_history(tgt, rng, fancy):
     for k, (w, md) in tgt["edges"].items():
         r = rng.random() if fancy else 0.0
         pk = (lambda: perm_key(kind, k, rng)) if fancy else (lambda: opkey(kind, k))
-        if r < 0.35:
+        if r < 0.25:
             units.append([["addedge", pk(), w, md if (md or rng.random() < 0.5) else None]])
-        elif r < 0.5 and weighted:
-            a, b = split_weight(w, rng)
-            units.append([["addedge", pk(), a, gen_dict(rng)], ["addedge", pk(), b, md]])
+        elif r < 0.4:
+            pre = prefix_dict(md, rng)
+            units.append([["addedge", pk(), w, pre if (pre or rng.random() < 0.5) else None]] +
+                         attr_build("seteattr", "deleattr", pk, md, rng, have=pre))
+            used.add("attr-build")
+        elif r < 0.5 and (weighted or rng.random() < 0.5):
+            # the hyperedge is inserted twice: weights add up (weighted), the metadata of the second call replaces the
+            # first one - also when the second call passes none
+            a, b = split_weight(w, rng) if weighted else (None, None)
+            units.append([["addedge", pk(), a, gen_dict(rng)], ["addedge", pk(), b, md if (md or rng.random() < 0.5) else None]])
             used.add("split")
         elif r < 0.6 and can_set:
             units.append([["addedge", pk(), w, gen_dict(rng, p_empty=0.1)], ["setem", pk(), md]])
@@ -728,9 +925,17 @@ def gen_history(tgt, rng, fancy):
             units.append([["addedge", pk(), w, md], ["rmedge", pk()], ["addedge", pk(), w, md]])
             used.add("readd")
     # --- hypergraph metadata
+    head = []
     if fancy and rng.random() < 0.3:
         units.append([["sethm", gen_dict(rng)], ["sethm", final_hmeta(tgt)]])
         used.add("overwrite")
+    elif fancy and rng.random() < 0.3:
+        # constructor with a part of the hypergraph metadata, the rest through set_attr_to_hypergraph_metadata
+        uhm = tgt["user_hm"] or {}
+        part = prefix_dict(uhm, rng)
+        head = [["ctor", weighted, (part if (part or rng.random() < 0.5) else None), None, None, None, None, False]]
+        units.append([["sethattr", f, v] for f, v in uhm.items() if f not in part and f not in ("weighted", "type")])
+        used.add("attr-build")
     # --- content-neutral detours
     if fancy:
         for _ in range(rng.randint(0, 3)):
@@ -827,19 +1032,22 @@ def gen_history(tgt, rng, fancy):
         pre.append(["sethm", final_hmeta(tgt)])
         ops = pre + ops
         used.add("clear")
-    return ops, used
+    if fancy and kind != "M" and rng.random() < 0.25:
+        # from here on the history continues on obj.copy(); the original must stay as it is
+        ops.insert(rng.randint(0, len(ops)), ["fork"])
+        used.add("fork")
+    return head + ops, used
 
 
 def gen_batched(tgt, rng):
-    """the target built through the batched calls add_nodes / add_edges, with a batched removal detour"""
+    """the target built through the batched calls add_nodes / add_edges or through the constructor with lists, with
+    and without metadata arguments; metadata that was not passed is completed afterwards (attribute-level setters,
+    sometimes the whole-dictionary setters); a batched removal detour"""
     kind, weighted = tgt["kind"], tgt["weighted"]
-    ops = []
+    can_set = kind != "M"
+    used = {"batched"}
     ns = list(tgt["nodes"])
     rng.shuffle(ns)
-    if ns:
-        ops.append(["addnodes", ns, [tgt["nodes"][n] for n in ns] if kind != "D" else None])
-        if kind == "D":
-            ops += [["setnm", n, tgt["nodes"][n]] for n in ns if tgt["nodes"][n]]
     ks = list(tgt["edges"])
     rng.shuffle(ks)
     if weighted:
@@ -851,36 +1059,158 @@ def gen_batched(tgt, rng):
             seen.add(nt)
     else:
         first, rest = ks, []
+    mode = rng.choice(["calls", "calls", "ctor"])
+    # pass the node metadata with the batch?  (DirectedHypergraph.add_nodes takes none; its constructor does)
+    node_meta = (kind != "D" or mode == "ctor") and rng.random() < 0.35
+    edge_meta = rng.random() < 0.35
     extra = list(tgt["extra"])
     detour = None
-    if kind != "M" and len(ns) >= 2 and extra and rng.random() < 0.6:
+    if mode == "calls" and kind != "M" and len(ns) >= 2 and extra and rng.random() < 0.5:
         v = extra[0]
         base = gen_key(kind, ns, rng)
         if base is not None:
             x = key_with(kind, base, v, rng)
             if x not in tgt["edges"]:
                 detour = (v, x)
-    if first:
-        batch = list(first)
-        ws = [tgt["edges"][k][0] for k in batch] if weighted else None
-        mds = [tgt["edges"][k][1] for k in batch]
-        if detour:
-            batch.append(detour[1])
-            if weighted:
-                ws.append(1)
-            mds.append({"tmp": 1})
-        ops.append(["addedges", [perm_key(kind, k, rng) for k in batch], ws, mds if rng.random() < 0.8 or any(mds) else None])
-    elif detour:
-        ops.append(["addedge", opkey(kind, detour[1]), 1 if weighted else None, None])
-    for k in rest:
-        ops.append(["addedge", perm_key(kind, k, rng), tgt["edges"][k][0], tgt["edges"][k][1]])
-    if detour:
-        if rng.random() < 0.5:
-            ops.append(["rmedges", [perm_key(kind, detour[1], rng)]])
-            ops.append(["rmnodes", [detour[0]], rng.randint(0, 1)])
+
+    def complete_node(n):
+        md = tgt["nodes"][n]
+        if not md:
+            return []
+        if can_set and rng.random() < 0.25:
+            return [["setnm", n, md]]
+        return attr_build("setnattr", "delnattr", n, md, rng)
+
+    def complete_edge(k):
+        md = tgt["edges"][k][1]
+        if not md:
+            return []
+        if can_set and rng.random() < 0.25:
+            return [["setem", perm_key(kind, k, rng), md]]
+        return attr_build("seteattr", "deleattr", lambda: perm_key(kind, k, rng), md, rng)
+
+    node_ops, node_late, edge_ops, edge_late, head = [], [], [], [], []
+    # ---- nodes
+    if mode == "ctor":
+        if node_meta or rng.random() < 0.5:
+            # node_metadata lists every node; without `node_meta` all entries are {} and are completed afterwards
+            nitems = [[n, tgt["nodes"][n] if node_meta else {}] for n in ns]
+            later = []
+            if not node_meta:
+                node_late = [complete_node(n) for n in ns]
         else:
-            ops.append(["rmnodes", [detour[0]], 0])
-    return ops, {"batched"} | ({"node-detour"} if detour else set())
+            nitems, later = None, ns
+            node_meta = node_meta and kind != "D"
+    else:
+        nitems, later = None, ns
+    if later:
+        parts = [later]
+        if len(later) >= 3 and rng.random() < 0.3:
+            c = rng.randint(1, len(later) - 1)
+            parts = [later[:c], later[c:]]
+        if rng.random() < 0.15:
+            parts.insert(rng.randint(0, len(parts)), [])          # an empty batch changes nothing
+        pre_nodes = set()
+        if node_meta and rng.random() < 0.3:
+            # nodes that exist already with non-empty metadata keep it: the entry of the batch is ignored
+            for n in later:
+                if tgt["nodes"][n] and rng.random() < 0.5:
+                    node_ops.append(["addnode", n, tgt["nodes"][n]])
+                    pre_nodes.add(n)
+        for part in parts:
+            op = ["addnodes", part, [(gen_dict(rng, p_empty=0.1) if n in pre_nodes else tgt["nodes"][n]) for n in part]
+                  if node_meta else None]
+            if node_meta and rng.random() < 0.3:
+                # the metadata dictionary may hold entries for other nodes: they are not inserted
+                op.append([[x, gen_dict(rng)] for x in (tgt["extra"][-2:] + [n for n in ns if n not in part][:1])])
+            node_ops.append(op)
+        if not node_meta:
+            node_late = [complete_node(n) for n in later]
+    # ---- hyperedges
+    batch = list(first)
+    ws = [tgt["edges"][k][0] for k in batch] if weighted else None
+    mds = [tgt["edges"][k][1] for k in batch] if edge_meta else None
+    if detour:
+        batch.append(detour[1])
+        if weighted:
+            ws.append(1)
+        if edge_meta:
+            mds.append({"tmp": 1})
+    keys = [perm_key(kind, k, rng) for k in batch]
+    if mode == "calls" and first and rng.random() < 0.3:
+        # a hyperedge of the batch exists already: the batch adds its weight to it and REPLACES its metadata
+        # (by `{}` when the batch has no metadata list)
+        i = rng.randrange(len(first))
+        k = first[i]
+        if weighted:
+            a, b = split_weight(tgt["edges"][k][0], rng)
+            ws[i] = b
+        else:
+            a = None
+        edge_ops.append(["addedge", perm_key(kind, k, rng), a, gen_dict(rng, p_empty=0.2)])
+        used.add("split")
+    if mode == "ctor":
+        if batch or rng.random() < 0.3:
+            head = [["ctor", weighted, tgt["user_hm"], nitems, keys, ws if batch else None, mds if batch else None,
+                     kind in "TM" and rng.random() < 0.4]]
+        else:
+            head = [["ctor", weighted, tgt["user_hm"], nitems, None, None, None, False]]
+    else:
+        if batch:
+            if len(batch) >= 3 and rng.random() < 0.25:
+                c = rng.randint(1, len(batch) - 1)
+                edge_ops.append(["addedges", keys[:c], ws[:c] if weighted else None, mds[:c] if edge_meta else None])
+                edge_ops.append(["addedges", keys[c:], ws[c:] if weighted else None, mds[c:] if edge_meta else None])
+            else:
+                edge_ops.append(["addedges", keys, ws, mds])
+        if rng.random() < 0.1:
+            edge_ops.insert(rng.randint(0, len(edge_ops)), ["addedges", [], None, [] if edge_meta else None])
+    if not edge_meta:
+        edge_late = [complete_edge(k) for k in first]
+    for k in rest:
+        edge_late.append([["addedge", perm_key(kind, k, rng), tgt["edges"][k][0], tgt["edges"][k][1]]])
+    if detour:
+        u = []
+        if rng.random() < 0.5:
+            u.append(["rmedges", [perm_key(kind, detour[1], rng)]])
+            u.append(["rmnodes", [detour[0]], rng.randint(0, 1)])
+        else:
+            u.append(["rmnodes", [detour[0]], 0])
+        edge_late.append(u)
+        used.add("node-detour")
+    if any(node_late) or any(edge_late):
+        used.add("attr-build")
+    # the completion of the node metadata comes right after the node batch (while the batch items have not been
+    # touched by anything else) or is interleaved with everything that follows
+    if rng.random() < 0.5:
+        ops = node_ops + interleave(node_late, rng) + edge_ops + interleave(edge_late, rng)
+    else:
+        ops = node_ops + edge_ops + interleave(node_late + edge_late, rng)
+    return head + ops, used
+
+
+def list_paths(v, path=()):
+    """paths to the lists inside a JSON value whose reversal is another value"""
+    out = []
+    if isinstance(v, dict):
+        for k, x in v.items():
+            out += list_paths(x, path + (k,))
+    elif isinstance(v, list):
+        if len(v) >= 2 and tsig(v[::-1]) != tsig(v):
+            out.append(path)
+        for i, x in enumerate(v):
+            out += list_paths(x, path + (i,))
+    return out
+
+
+def reverse_at(v, path):
+    if not path:
+        return v[::-1]
+    if isinstance(v, dict):
+        out = dict(v)
+        out[path[0]] = reverse_at(v[path[0]], path[1:])
+        return out
+    return v[:path[0]] + [reverse_at(v[path[0]], path[1:])] + v[path[0] + 1:]
 
 
 def edit_target(tgt, rng):
@@ -889,6 +1219,12 @@ def edit_target(tgt, rng):
     t = copy.deepcopy(tgt)
     # deepcopy turns nothing into lists here; keys stay tuples
     choices = ["node+", "hmeta"]
+    # the order of a list inside a metadata value is part of the value
+    lists = [("n", n, p) for n, md in t["nodes"].items() for p in list_paths(md)] + \
+            [("e", k, p) for k, (w, md) in t["edges"].items() for p in list_paths(md)] + \
+            [("h", None, p) for p in list_paths(t["user_hm"] or {}) if p[0] not in ("weighted", "type")]
+    if lists:
+        choices += ["lorder", "lorder"]
     iso = [n for n in t["nodes"] if not any(n in key_nodes(kind, k) for k in t["edges"])]
     if iso:
         choices.append("node-")
@@ -901,11 +1237,19 @@ def edit_target(tgt, rng):
         if kind in "TM":
             choices += ["wtype"]
         if all(w is None or (w == 1 and isinstance(w, int)) for w, _ in t["edges"].values()):
-            choices += ["weightedness"]
+            choices += ["weightedness", "wflag", "wflag"]
     else:
-        choices += ["weightedness"]
+        choices += ["weightedness", "wflag"]
     c = rng.choice(choices)
-    if c == "node+":
+    if c == "lorder":
+        where, x, path = rng.choice(lists)
+        if where == "n":
+            t["nodes"][x] = reverse_at(t["nodes"][x], path)
+        elif where == "e":
+            t["edges"][x] = (t["edges"][x][0], reverse_at(t["edges"][x][1], path))
+        else:
+            t["user_hm"] = reverse_at(t["user_hm"], path)
+    elif c == "node+":
         if not t["extra"]:
             return None
         t["nodes"][t["extra"][0]] = {}
@@ -980,6 +1324,11 @@ def edit_target(tgt, rng):
     elif c == "weightedness":
         t["weighted"] = not t["weighted"]
         t["edges"] = {k: ((1 if t["weighted"] else None), md) for k, (w, md) in t["edges"].items()}
+    elif c == "wflag":
+        # ONLY is_weighted() differs: the hypergraph metadata (which hold a copy of the constructor's flag) are the same
+        t["weighted"] = not t["weighted"]
+        t["edges"] = {k: ((1 if t["weighted"] else None), md) for k, (w, md) in t["edges"].items()}
+        t["hm_final"] = final_hmeta(tgt)
     return c, t
 
 
@@ -1025,20 +1374,50 @@ def labels_of(histories, tgt):
     return labs, lays
 
 
+def first_diff(a, b):
+    """short description of where two signatures (reprs of nested tuples/lists) part"""
+    try:
+        import ast
+        x, y = ast.literal_eval(a), ast.literal_eval(b)
+        names = ["class", "weighted", "hypergraph metadata", "nodes", "hyperedges"]
+        for nm, u, v in zip(names, x, y):
+            if u != v:
+                if isinstance(u, list):
+                    du = [e for e in u if e not in v]
+                    dv = [e for e in v if e not in u]
+                    return "%s: expected %r, observed %r" % (nm, du[:3], dv[:3])
+                return "%s: expected %r, observed %r" % (nm, u, v)
+    except Exception:
+        pass
+    return "expected %s, observed %s" % (a[:200], b[:200])
+
+
+def expected_obs(tgt):
+    """the content a target describes, in the shape of observe()"""
+    return {"cls": TAG[tgt["kind"]], "weighted": tgt["weighted"], "hmeta": final_hmeta(tgt),
+            "nodes": dict(tgt["nodes"]),
+            "edges": {k: ((1 if w is None else w), md) for k, (w, md) in tgt["edges"].items()}}
+
+
 def run_history(ctx, drv, slot, kind, weighted, user_hm, ops, rank, lrank, case, probes):
     """returns list of probe results (dicts) - at the probe positions and at the end"""
     unrank = {v: k for k, v in rank.items()}
     unlrank = {v: k for k, v in lrank.items()}
+    ctor = ops[0] if (ops and ops[0][0] == "ctor") else None
     try:
-        h = make(kind, weighted, user_hm)
+        h = make_ctor(kind, ctor) if ctor is not None else make(kind, weighted, user_hm)
     except Timeout:
         raise
     except Exception as e:
         ctx.violation(case, "constructor raised %r" % (e,))
         return None
-    lines = ["new %d %s %d %s" % (slot, kind, 1 if weighted else 0, wire(user_hm or {}))]
+    if ctor is not None:
+        lines = [wire_ctor(kind, slot, ctor, rank, lrank)]
+    else:
+        lines = ["new %d %s %d %s" % (slot, kind, 1 if weighted else 0, wire(user_hm or {}))]
     expect = [("ans", "ok")]
     results = []
+    forks = []
 
     def probe(pos):
         res = {"pos": pos}
@@ -1118,9 +1497,32 @@ def run_history(ctx, drv, slot, kind, weighted, user_hm, ops, rank, lrank, case,
             note_disagree(ctx, {**case, "at": pos}, "pre-image is not a JSON tree of the documented shape: %r" % (e,))
         return res
     for i, op in enumerate(ops):
+        if op[0] == "ctor":
+            if i != 0:
+                raise AssertionError("ctor inside a history")
+            continue
+        if op[0] == "fork":
+            # go on with a copy; the original is kept and must not change any more (the model is value-based:
+            # copying is the identity on tables)
+            try:
+                d0 = plain_hash(h)
+                sig0 = signature(kind, observe(kind, h))
+                c = h.copy()
+                dc = plain_hash(c)
+            except Timeout:
+                raise
+            except Exception as e:
+                ctx.violation({**case, "at": i}, "copy() / hash of the copy raised %r" % (e,))
+                return None
+            if dc != d0:
+                ctx.violation({**case, "at": i}, "copy() hashes differently from its original")
+            forks.append((h, d0, sig0, i))
+            h = c
+            ctx.count("forks")
+            continue
         a = apply_op(kind, h, op)
         wl = wire_ops(kind, slot, op, rank, lrank)
-        if len(wl) != 1 and a != "ok":
+        if op[0] in BATCHED and a != "ok":
             note_disagree(ctx, {**case, "op": op}, "a valid batched call was rejected")
             return None
         for ln in wl:
@@ -1134,6 +1536,25 @@ def run_history(ctx, drv, slot, kind, weighted, user_hm, ops, rank, lrank, case,
     if r is None:
         return None
     results.append(r)
+    for orig, d0, sig0, at in forks:
+        try:
+            d1 = plain_hash(orig)
+            sig1 = signature(kind, observe(kind, orig))
+        except Timeout:
+            raise
+        except Exception as e:
+            ctx.violation({**case, "at": at}, "the original of a copy cannot be hashed / read any more after its copy was "
+                                              "edited: %r" % (e,))
+            continue
+        if d1 != d0 or sig1 != sig0:
+            ctx.violation({**case, "at": at}, "a hypergraph's %s changed although no method was called on it (only its "
+                                              "copy() was edited)" % ("hash" if d1 != d0 else "content"))
+    want = case.get("expect")
+    if want is not None and r.get("sig") is not None and r["sig"] != want:
+        ctx.count("unexpected_content")
+        ctx.violation(case, "the calls of this history describe one content (each call applied to its own node / "
+                            "hyperedge, as documented) but the getters show another one, so it hashes differently from "
+                            "every other construction of that content: " + first_diff(want, r["sig"]))
     if drv is not None:
         answers = drv.batch(lines)
         for ln, a, ex in zip(lines, answers, expect):
@@ -1179,6 +1600,8 @@ def check_case(ctx, drv, case):
     slot = 0
     for hi, ops in enumerate(case["histories"]):
         sub = {"kind": kind, "weighted": case["weighted"], "user_hm": case["user_hm"], "labels": labs, "history": ops}
+        if case.get("expect") is not None:
+            sub["expect"] = case["expect"]
         probes = set(case.get("probes", {}).get(str(hi), []))
         signal.alarm(20)
         try:
@@ -1202,6 +1625,8 @@ def check_case(ctx, drv, case):
                 continue
             pair = {"kind": kind, "weighted": case["weighted"], "user_hm": case["user_hm"], "labels": labs,
                     "histories": [case["histories"][i], case["histories"][j]]}
+            if case.get("same_target"):
+                pair["same_target"] = True
             if a["sig"] == b["sig"]:
                 n_equal += 1
                 if a["digest"] != b["digest"]:
@@ -1209,6 +1634,14 @@ def check_case(ctx, drv, case):
                                         "getters show them) but hash differently")
             elif a["digest"] == b["digest"]:
                 ctx.violation(pair, "two histories end in different contents but hash equally")
+            elif case.get("same_target"):
+                # both histories build the SAME content call by call (single insertions vs batched insertions vs the
+                # constructor, then the same attribute edits): the getters of the two objects must agree
+                ctx.count("same_target_differs")
+                ctx.violation(pair, "two histories whose calls build the same content (single / batched insertions, "
+                                    "constructor with lists, whole-dictionary / attribute-level metadata setters, each call "
+                                    "applied to its own node / hyperedge) hash differently; the getters of the two objects show: "
+                              + first_diff(a["sig"], b["sig"]))
     ctx.count("pairs_equal_content", n_equal)
     ctx.count("pairs_total", len(ends) * (len(ends) - 1) // 2)
     # difference direction: single-element edits
@@ -1217,6 +1650,8 @@ def check_case(ctx, drv, case):
     for ed in case.get("edits", []):
         sub = {"kind": kind, "weighted": ed["weighted"], "user_hm": ed["user_hm"], "labels": labs, "history": ed["ops"],
                "edit": ed["name"]}
+        if ed.get("expect") is not None:
+            sub["expect"] = ed["expect"]
         signal.alarm(20)
         try:
             res = run_history(ctx, drv, slot, kind, ed["weighted"], ed["user_hm"], ed["ops"], rank, lrank, sub, set())
@@ -1256,6 +1691,68 @@ def check_case(ctx, drv, case):
     return n_equal
 
 
+def gen_attr_edits(tgt, rng, n):
+    """n attribute-level edits (set_attr_to_* / remove_attr_from_* on nodes, hyperedges, the hypergraph; some that
+    must be rejected) and the target they lead to; each edit concerns ONE node / ONE hyperedge"""
+    kind = tgt["kind"]
+    t = copy.deepcopy(tgt)
+    ops = []
+    for _ in range(n):
+        r = rng.random()
+        if r < 0.42 and t["nodes"]:
+            x = rng.choice(list(t["nodes"]))
+            md = dict(t["nodes"][x])
+            if md and rng.random() < 0.35:
+                f = rng.choice(list(md))
+                ops.append(["delnattr", x, f])
+                del md[f]
+            else:
+                f, v = rng.choice(WORDS), gen_value(rng, 1)
+                ops.append(["setnattr", x, f, v])
+                md[f] = v
+            t["nodes"][x] = md
+        elif r < 0.82 and t["edges"]:
+            k = rng.choice(list(t["edges"]))
+            w, md = t["edges"][k]
+            md = dict(md)
+            if md and rng.random() < 0.35:
+                f = rng.choice(list(md))
+                ops.append(["deleattr", perm_key(kind, k, rng), f])
+                del md[f]
+            else:
+                f, v = rng.choice(WORDS), gen_value(rng, 1)
+                ops.append(["seteattr", perm_key(kind, k, rng), f, v])
+                md[f] = v
+            t["edges"][k] = (w, md)
+        elif r < 0.9:
+            f, v = rng.choice([w for w in WORDS if w != "type"]), gen_value(rng, 1)
+            ops.append(["sethattr", f, v])
+            t["user_hm"] = dict(t["user_hm"] or {})
+            t["user_hm"][f] = v
+        else:
+            # rejected: a field that is not there, a node / hyperedge that is not there
+            c = rng.randrange(4)
+            if c == 0 and t["nodes"]:
+                x = rng.choice(list(t["nodes"]))
+                free = [w for w in WORDS if w not in t["nodes"][x]]
+                ops.append(["delnattr", x, rng.choice(free)])
+            elif c == 1 and t["edges"]:
+                k = rng.choice(list(t["edges"]))
+                free = [w for w in WORDS if w not in t["edges"][k][1]]
+                ops.append(["deleattr", perm_key(kind, k, rng), rng.choice(free)])
+            elif c == 2 and t["extra"]:
+                ops.append(rng.choice([["setnattr", t["extra"][-1], rng.choice(WORDS), gen_value(rng, 1)],
+                                       ["delnattr", t["extra"][-1], rng.choice(WORDS)]]))
+            elif t["nodes"]:
+                for _ in range(8):
+                    k = gen_key(kind, list(t["nodes"]), rng)
+                    if k is not None and k not in t["edges"]:
+                        ops.append(rng.choice([["seteattr", perm_key(kind, k, rng), rng.choice(WORDS), gen_value(rng, 1)],
+                                               ["deleattr", perm_key(kind, k, rng), rng.choice(WORDS)]]))
+                        break
+    return ops, t
+
+
 def gen_case(rng, kind):
     tgt = gen_target(kind, rng)
     hists, used_all, probes = [], set(), {}
@@ -1265,6 +1762,11 @@ def gen_case(rng, kind):
         used_all |= used
         if ops and rng.random() < 0.5:
             probes[str(i)] = [rng.randrange(len(ops))]
+    if rng.random() < 0.65:
+        # the same attribute-level edits after every construction of the content
+        suffix, tgt = gen_attr_edits(tgt, rng, rng.randint(1, 5))
+        hists = [h + copy.deepcopy(suffix) for h in hists]
+        used_all.add("attr-edits")
     edits = []
     for _ in range(rng.randint(4, 6)):
         e = edit_target(tgt, rng)
@@ -1272,12 +1774,56 @@ def gen_case(rng, kind):
             continue
         name, t2 = e
         ops, _ = gen_history(t2, rng, fancy=False)
-        edits.append({"name": name, "weighted": t2["weighted"], "user_hm": t2["user_hm"], "ops": ops})
+        ed = {"name": name, "weighted": t2["weighted"], "user_hm": t2["user_hm"], "ops": ops,
+              "expect": signature(kind, expected_obs(t2))}
+        if name == "wflag":
+            ks = list(t2["edges"])
+            distinct = len({tuple(key_nodes(kind, k)) for k in ks}) == len(ks)
+            if t2["weighted"] and ks and distinct and rng.random() < 0.6:
+                # the unweighted constructor, then ONE add_edges call with a weights list (all 1) turns it weighted;
+                # the hypergraph metadata keep the constructor's flag
+                ed["weighted"], ed["user_hm"] = tgt["weighted"], tgt["user_hm"]
+                ed["ops"] = [["addnode", n, md] for n, md in t2["nodes"].items()] + \
+                            [["addedges", [perm_key(kind, k, rng) for k in ks], [1] * len(ks), [t2["edges"][k][1] for k in ks]]]
+            else:
+                ed["ops"] = ops + [["sethm", t2["hm_final"]]]
+        edits.append(ed)
     case = {"kind": kind, "weighted": tgt["weighted"], "user_hm": tgt["user_hm"],
-            "labels": sorted(set(tgt["nodes"]) | set(tgt["extra"])), "histories": hists, "edits": edits, "probes": probes}
+            "labels": sorted(set(tgt["nodes"]) | set(tgt["extra"])), "histories": hists, "edits": edits, "probes": probes,
+            "same_target": True, "expect": signature(kind, expected_obs(tgt))}
     nontrivial = bool(used_all & {"edge-detour", "node-detour", "node-rebuild", "clear", "shrink", "readd"}) and \
         bool(tgt["edges"]) and (any(tgt["nodes"].values()) or any(md for _, md in tgt["edges"].values()))
     return case, used_all, nontrivial
+
+
+def alias_probes():
+    """small fixed cases, one per class: >= 3 nodes and >= 2 hyperedges inserted one by one / by ONE metadata-less
+    batch / by the constructor, then an attribute set on one node and on one hyperedge, an attribute set and removed
+    again on another one.  (Deterministic members of the class that gen_batched + gen_attr_edits sample.)"""
+    out = []
+    keys = {"H": [[1, 2], [2, 3, 4]], "D": [[[1], [2]], [[2, 3], [4]]], "T": [[0, [1, 2]], [1, [2, 3]]],
+            "M": [[[1, 2], "A"], [[1, 2], "K"]]}
+    for kind in KINDS:
+        for weighted in (False, True):
+            ks = keys[kind]
+            ws = [2, 0.5] if weighted else None
+            edits = [["setnattr", 5, "a", "red"], ["seteattr", ks[0], "k1", 1], ["setnattr", 4, "b", None],
+                     ["delnattr", 4, "b"], ["seteattr", ks[1], "Z", [1]], ["deleattr", ks[1], "Z"], ["sethattr", "x9", 0]]
+            single = [["addnode", n, None] for n in (6, 5, 4)] + \
+                     [["addedge", k, (ws[i] if weighted else None), None] for i, k in enumerate(ks)]
+            batch = [["addnodes", [4, 5, 6], None], ["addedges", ks, ws, None]]
+            ctor = [["ctor", weighted, None, [[n, {}] for n in (4, 5, 6)], ks, ws, None, False]]
+            tgt = {"kind": kind, "weighted": weighted, "user_hm": {"x9": 0},
+                   "nodes": {1: {}, 2: {}, 3: {}, 4: {}, 5: {"a": "red"}, 6: {}},
+                   "edges": {canon_key(kind, canon_free(kind, ks[0])): ((ws[0] if weighted else None), {"k1": 1}),
+                             canon_key(kind, canon_free(kind, ks[1])): ((ws[1] if weighted else None), {})}}
+            touched = {n for k in tgt["edges"] for n in key_nodes(kind, k)} | {4, 5, 6}
+            tgt["nodes"] = {n: md for n, md in tgt["nodes"].items() if n in touched}
+            forked = single + [["fork"]] if kind != "M" else list(reversed(single))
+            out.append({"kind": kind, "weighted": weighted, "user_hm": None, "labels": [1, 2, 3, 4, 5, 6], "edits": [],
+                        "histories": [h + copy.deepcopy(edits) for h in (single, batch, ctor, forked)],
+                        "same_target": True, "expect": signature(kind, expected_obs(tgt))})
+    return out
 
 
 # past failures, replayed first on every run (found by this check on the tree without the repairs D9 / D11)
@@ -1298,7 +1844,7 @@ WITNESSES = [
 
 def run(ctx):
     drv = ctx.driver() if ctx.model_available else None
-    for w in WITNESSES:
+    for w in WITNESSES + alias_probes():
         check_case(ctx, drv, copy.deepcopy(w))
         ctx.case("witness:" + json.dumps(w, sort_keys=True), True)
     n = ctx.scale(450, 12000)
